@@ -84,6 +84,14 @@ VERDICT_RE = re.compile(
     r'\s*v_object := "((?:[^"]|"")*)";\s*v_known := \[([^\]]*)\]\s*\|\}\)')
 
 
+# components of Corr/MysqlCorr.v cover_stats, in order
+COVER_KEYS = ["modify_all_total", "modify_under_restates_all", "modify_comment_lost", "modify_comment_lost_confirmed_on_impl_sql",
+              "r3_actions_under_a_proved_sim_lemma", "r3_migrations_fully_under_sim_lemmas",
+              "delete_column_actions", "delete_column_r3", "delete_column_now",
+              "rename_column_actions", "rename_column_r3", "rename_column_now",
+              "outside_judged", "outside_whole_proved_r3", "outside_whole_proved_now"]
+
+
 def write_shards(d, rows, per):
     names, parse_errors = [], []
     header = "From VV.MYSQL Require Import MysqlCorr.\n"
@@ -92,7 +100,8 @@ def write_shards(d, rows, per):
             "Eval vm_compute in (hyp_stats cases).\n"
             "Eval vm_compute in (outside_stats cases).\n"
             "Eval vm_compute in (sim_stats cases).\n"
-            "Eval vm_compute in (simp_stats cases).\n")
+            "Eval vm_compute in (simp_stats cases).\n"
+            "Eval vm_compute in (cover_stats cases).\n")
     terms = []
     for i, r in enumerate(rows):
         t, errs = case_term(r)
@@ -121,6 +130,8 @@ def eval_dir(d, rows, per):
     stats = {"modify_actions": 0, "modify_under_hypothesis": 0, "modify_on_autoinc_column": 0, "outside_known_classes": 0, "outside_and_holding": 0,
              "actions_in_judged_migrations": 0, "actions_under_a_proved_sim_lemma": 0, "judged_migrations": 0, "migrations_fully_under_sim_lemmas": 0,
              "not_whole_by_Sim_plan": 0, "whole_by_SimP_plan_equiv": 0, "whole_by_SimP_plan_checked_only": 0}
+    for k in COVER_KEYS:
+        stats[k] = 0
     for f, rc, o, dt in res:
         if rc != 0:
             errors.append({"shard": os.path.basename(f), "log": o[-1500:]})
@@ -163,6 +174,11 @@ def eval_dir(d, rows, per):
                 stats["not_whole_by_Sim_plan"] += c[0]
                 stats["whole_by_SimP_plan_equiv"] += c[1]
                 stats["whole_by_SimP_plan_checked_only"] += c[2]
+        if len(blocks) >= 7:
+            c = vflib.parse_nat_list(blocks[6])
+            if len(c) == len(COVER_KEYS):
+                for k, x in zip(COVER_KEYS, c):
+                    stats[k] += x
     return mism, verdicts, errors, parse_errors, stats
 
 
